@@ -75,7 +75,8 @@ def fam_relay(w: World) -> None:
     ch = w.ch
     status_fn = ch.choice(sorted(H.STATUS_FUNCTIONS), 'status_fn')
     path = ch.choice(['/api', '/rpc/v2', '/x/'], 'path')
-    sub = ch.choice([None, '/sub'], 'sub')
+    sub = ch.choice([None, '/sub', '/sub/'], 'sub')
+    sub_blueprint = ch.flag(1, 3, 'flask.sub_blueprint')
     max_batch = ch.choice([None, None, 1, 3], 'max_batch')
     flavour = ch.choice(['async', 'mixed', 'sync'], 'aio.flavour')
     n_posts = 1 + ch.draw(3, 'posts')
@@ -83,14 +84,16 @@ def fam_relay(w: World) -> None:
     earlier_app = ch.flag(1, 3, 'flask.earlier_app')
     S.plan_pauses(w, {'async': True, 'middlewares': [], 'handlers': {}}, 5)
     w.scenario = {'status_fn': status_fn, 'path': path, 'sub': sub, 'max_batch_size': max_batch, 'posts': [],
-                  'flask_blueprint_prefix': bp_prefix, 'flask_earlier_app': earlier_app}
+                  'flask_blueprint_prefix': bp_prefix, 'flask_earlier_app': earlier_app,
+                  'flask_sub_blueprint': sub_blueprint}
     hops: Dict[str, Any] = {}
     for name in ('aiohttp', 'flask', 'werkzeug'):
         kwargs = {'max_batch_size': max_batch}
         if name == 'aiohttp':
             hops[name] = H.AiohttpHop(w, path, sub, status_fn, kwargs, flavour)
         elif name == 'flask':
-            hops[name] = H.FlaskHop(w, path, sub, status_fn, kwargs, blueprint_prefix=bp_prefix, earlier_app=earlier_app)
+            hops[name] = H.FlaskHop(w, path, sub, status_fn, kwargs, blueprint_prefix=bp_prefix, earlier_app=earlier_app,
+                                    sub_blueprint=sub_blueprint)
         else:
             hops[name] = H.HOPS[name](w, path, sub, status_fn, kwargs)
     for k in range(n_posts):
@@ -127,7 +130,7 @@ def _one_post(w: World, hops: Dict[str, Any], k: int, ctype: Optional[str], hdr_
     results: Dict[str, H.HopResult] = {}
     for name in ('aiohttp', 'flask', 'werkzeug'):
         hop = hops[name]
-        url = path.rstrip('/') + (sub if use_sub and name != 'werkzeug' else '')
+        url = path.rstrip('/') + (sub.rstrip('/') if use_sub and name != 'werkzeug' else '')
         before = len(w.history)
         res = hop.post(url or '/', body, ctype, pieces) if name == 'aiohttp' else hop.post(url or '/', body, ctype)
         results[name] = res
